@@ -46,6 +46,8 @@ pub struct ReaderStep {
 pub enum SchedulerChoice {
     Random { seed: u64 },
     Pct { seed: u64, depth: usize },
+    /// `sched::HorizonPct`: seeded priorities for every task, change points within `horizon` steps
+    Horizon { seed: u64, depth: usize, horizon: usize },
 }
 
 impl SchedulerChoice {
@@ -53,18 +55,27 @@ impl SchedulerChoice {
         match self {
             | SchedulerChoice::Random { .. } => SchedulerChoice::Random { seed },
             | SchedulerChoice::Pct { depth, .. } => SchedulerChoice::Pct { seed, depth },
+            | SchedulerChoice::Horizon { depth, horizon, .. } => SchedulerChoice::Horizon { seed, depth, horizon },
         }
     }
-    fn to_json(self) -> Value {
+    pub fn to_json(self) -> Value {
         match self {
             | SchedulerChoice::Random { seed } => json!({"kind": "random", "seed": seed.to_string()}),
             | SchedulerChoice::Pct { seed, depth } => json!({"kind": "pct", "seed": seed.to_string(), "depth": depth}),
+            | SchedulerChoice::Horizon { seed, depth, horizon } => {
+                json!({"kind": "horizon-pct", "seed": seed.to_string(), "depth": depth, "horizon": horizon})
+            }
         }
     }
-    fn from_json(value: &Value) -> Option<Self> {
+    pub fn from_json(value: &Value) -> Option<Self> {
         let seed = value["seed"].as_str()?.parse().ok()?;
         Some(match value["kind"].as_str()? {
             | "pct" => SchedulerChoice::Pct { seed, depth: value["depth"].as_u64()? as usize },
+            | "horizon-pct" => SchedulerChoice::Horizon {
+                seed,
+                depth: value["depth"].as_u64()? as usize,
+                horizon: value["horizon"].as_u64()? as usize,
+            },
             | _ => SchedulerChoice::Random { seed },
         })
     }
@@ -362,8 +373,12 @@ pub fn generate(seed: u64, thorough: bool) -> Generated {
     }
     let allocators: Vec<u8> = (0..rng.below(3)).map(|_| rng.range(1, 4) as u8).collect();
     let checkers: Vec<Vec<usize>> = (0..rng.below(3)).map(|_| (0..rng.range(1, 2)).map(|_| *rng.pick(&roots)).collect()).collect();
-    let scheduler = if rng.chance(1, 4) {
-        SchedulerChoice::Pct { seed: rng.next_u64(), depth: rng.range(2, 4) }
+    let scheduler = if rng.chance(1, 3) {
+        SchedulerChoice::Horizon {
+            seed: rng.next_u64(),
+            depth: rng.range(1, 4),
+            horizon: *rng.pick(&[30, 100, 300, 1000, 3000, 10000, 30000]),
+        }
     } else {
         SchedulerChoice::Random { seed: rng.next_u64() }
     };
